@@ -49,13 +49,13 @@ BRK = ["never", "const_true", "at_k", "at_input", "immediately"]
 CTX = ["top", "in_loop", "in_if", "in_function", "inlined"]
 
 
-def term_loop_cases(modules, thorough: bool) -> list[dict]:
+def term_loop_cases(modules, thorough: bool, escalate: bool = False) -> list[dict]:
     """quick: the full (trip count x cond) product for the modules that define their own Loop class
     (v17, v19, v21); for the re-exporting modules the cond-omitted column. thorough: everything."""
     cases = []
     quick_brk = [b for b in BRK if b != "const_true"]
     for mod in modules:
-        own = thorough or mod in ("v17", "v19", "v21")
+        own = thorough or escalate or mod in ("v17", "v19", "v21")  # (escalate: the glue code changed)
         for m in M_SRC:
             if not thorough and (m == "const1" or (not own and m not in ("const", "computed", "input"))):
                 continue
@@ -256,6 +256,8 @@ SCAN_FAMILY = [
     {"len": "N", "axes": "out1"},   # scan_output_axes=[1, ...]
     {"len": 3, "axes": "reverse"},  # scan_input_directions / scan_output_directions = 1
     {"len": "N", "axes": "in1out1"},
+    {"len": 3, "axes": "out1"},     # constant scan length that lands on axis 1 of two of the scan outputs
+    {"len": 3, "axes": "outneg"},   # scan_output_axes=[-1, ...]
 ]
 
 
@@ -283,6 +285,8 @@ def run_scan_family(case: dict, rng, sizes, max_inst: int, extra_feeds=()) -> di
                 kw["scan_input_axes"] = [1]
             if ax in ("out1", "in1out1"):
                 kw["scan_output_axes"] = [1, 0, 1, 0]
+            if ax == "outneg":
+                kw["scan_output_axes"] = [-1, 0, -2, 0]
             if ax == "reverse":
                 kw["scan_input_directions"] = [1]
                 kw["scan_output_directions"] = [1, 0, 1, 0]
@@ -305,6 +309,7 @@ SOURCES = [
     "random_uniform", "random_normal", "random_uniform_like", "random_normal_like", "multinomial", "bernoulli", "dropout",
     "dropout_mask",
 ]
+NONE_QUICK = ("const", "computed", "inline_arith", "if_const", "default", "multinomial", "shape_static", "loop_const", "init")
 RANDOM_SOURCES = ("random_uniform", "random_normal", "random_uniform_like", "random_normal_like", "multinomial", "bernoulli",
                   "dropout", "dropout_mask")
 # sources whose value exists at compile time (or could): the ones worth the slow ONNXRUNTIME backend in the quick tier
@@ -461,16 +466,18 @@ def _vdep_consumers(op, k, x, group: str) -> list:
     return outs + [op.identity(o) for o in outs]
 
 
-def vdep_cases(thorough: bool) -> list[dict]:
+def vdep_cases(thorough: bool, escalate: bool = False) -> list[dict]:
     cases = []
     mods = P.OPSET_MODULES
     for j, src in enumerate(SOURCES):
         for g in GROUPS:
             for b in BACKENDS:
-                if not thorough and b != "REFERENCE" and g == "risky":
+                if not (thorough or escalate) and b != "REFERENCE" and g == "risky":
                     continue
-                if not thorough and b == "ONNXRUNTIME" and src not in ORT_QUICK:
+                if not (thorough or escalate) and b == "ONNXRUNTIME" and src not in ORT_QUICK:
                     continue
+                if not (thorough or escalate) and b == "NONE" and src not in NONE_QUICK:
+                    continue  # (with propagation off nothing constant can be claimed from most sources)
                 cases.append({"src": src, "group": g, "backend": b, "module": mods[j % len(mods)] if not thorough else None})
     if thorough:
         cases = [dict(c, module=m) for c in cases for m in mods]
